@@ -262,7 +262,29 @@ class C20Executor(Executor):
     # ---- `while` loops under a per-iteration invariant: same proof scheme as the engine's symbolic `for`, with a GHOST iteration
     #      index (0 at entry, +1 per iteration, arbitrary >= 0 at the loop head and at exit).  Partial correctness only: nothing
     #      is claimed about termination of a `while` loop.
+    # ---- a loop cut inside a driver leaves its mark on EVERY path that leaves the loop.  The engine's `symbolic_for` resets the
+    # path condition of the state after the loop to the one before it (dropping what havoc_loop_state assumed), so the tag is
+    # put back here; otherwise a postcondition VC behind a restructured loop (moved into a helper, invariant not fitting) would
+    # be a definite refutation of code that may be perfectly right.
+    def _keep_cut_tag(self, run, s, st):
+        before = getattr(self, "_loop_cuts", 0)
+        outs = run(s, st)
+        if getattr(self, "_loop_cuts", 0) != before:
+            for o in outs:
+                try:
+                    if not any(z3.is_expr(p_) and p_.eq(LOOP_CUT_TAG) for p_ in o.st.pc):
+                        o.st.assume(LOOP_CUT_TAG)
+                except Exception:  # noqa -- an outcome without an ordinary state: nothing to tag
+                    pass
+        return outs
+
+    def s_For(self, s, st):
+        return self._keep_cut_tag(super().s_For, s, st)
+
     def s_While(self, s, st):
+        return self._keep_cut_tag(self._s_while, s, st)
+
+    def _s_while(self, s, st):
         from pyvc.symex import LoopCtx, Outcome
         spec = self.loop_spec(s)
         if spec is None or spec.inv is None or spec.inv_point is None or spec.unroll is not None:
@@ -332,9 +354,11 @@ class C20Executor(Executor):
                 if cur is not None and (isinstance(cur, VBytes) or self._is_symb(cur)):
                     carried.append(name)
         super().havoc_loop_state(st, body, spec, extra_names)
-        if not self.abstract and getattr(getattr(self, "contract", None), "role", "") in DRIVERS and self.inline_depth == 0:
-            # from here on the path depends on an invariant this pack inferred: a VC refuted on it is `unknown` (verify.discharge)
-            st.assume(z3.Bool("__havoc__@loop cut by an invariant inferred from the roles of the locals"))
+        if not self.abstract and getattr(getattr(self, "contract", None), "role", "") in DRIVERS:
+            # from here on the path depends on an invariant this pack inferred -- or, for a loop that was moved into an inlined
+            # helper (any inline depth), on no invariant at all: a VC refuted on it is `unknown` (verify.discharge)
+            st.assume(LOOP_CUT_TAG)
+            self._loop_cuts = getattr(self, "_loop_cuts", 0) + 1
         for r, o in sym.items():
             # content AND length are arbitrary after the havoc (a buffer may grow); the loop invariant says what the length is
             ln = z3.Int(fresh_name("out_len"))
@@ -656,6 +680,7 @@ class C20Executor(Executor):
 PYPDF_FALLBACK, PYPDF_PROVIDERS, PYPDF_ENCRYPTION = "pypdf._crypt_providers._fallback", "pypdf._crypt_providers", "pypdf._encryption"
 PYPDF_MODULES = (PYPDF_FALLBACK, PYPDF_PROVIDERS, PYPDF_ENCRYPTION)
 DRIVERS = ("aes_ecb_encrypt", "aes_ecb_decrypt", "aes_cbc_encrypt", "aes_cbc_decrypt")
+LOOP_CUT_TAG = z3.Bool("__havoc__@loop cut by an invariant inferred from the roles of the locals")
 
 
 class InstallExecutor(C20Executor):
